@@ -86,20 +86,40 @@ def m1(ctx, rep, T):
         x = vt.strip(x)
         return isinstance(x, dict) and x.get('k') == 'atom' and x.get('root') == lang_p and not x.get('path')
 
+    from .. import special
+
+    def pieces(v, d=0):
+        """the string value as a sequence of ('lit', text) / ('val', tree): nested format!/push_str concatenations flattened"""
+        v = vt.unvar(v)
+        if isinstance(v, dict) and v.get('k') == 'fmt' and d < 12:
+            out = []
+            for p_ in v.get('parts', []):
+                out += [('lit', str(p_['lit']))] if 'lit' in p_ else pieces(p_.get('hole'), d + 1)
+            return out
+        if isinstance(v, dict) and v.get('k') == 'lit' and v.get('t') in ('str', 'char'):
+            return [('lit', str(v.get('v')))]
+        return [('val', v)]
+
     def stem_of(lang):
-        def full(val, d=0):
-            val = vt.unvar(vt.peval(vt.expand_closures(val), lambda sc: lang if is_lang(sc) else None))
-            return val
-        r = full(ofn['tail'])
-        # a `let ext = match language {..}` inside is resolved by the same oracle when the format string is evaluated
-        if isinstance(r, dict) and r.get('k') == 'fmt':
-            parts = r.get('parts', [])
-            if len(parts) >= 2 and 'hole' in parts[0]:
-                h = vt.strip(parts[0]['hole'])
-                plain = isinstance(h, dict) and h.get('k') == 'atom' and h.get('root') == crate_p and not h.get('path')
-                dot = str(parts[1].get('lit', '')).startswith('.') if 'lit' in parts[1] else False
-                return ('plain' if plain and dot else 'modified'), vt.show(r)
-        return 'unknown', vt.show(r)
+        # the function specialised to `language = L` (vlib/special.py): match layout, closures, helpers, `format!` or
+        # `push`/`push_str` building all give the same sequence of pieces
+        outs = special.outcomes(ofn, [special.EnumSpec(lang_p, lang)])
+        outs = [vt.expand_closures(o) for o in outs]
+        if len(outs) != 1:
+            return 'unknown', ' | '.join(vt.show(o)[:60] for o in outs)
+        seq = pieces(outs[0])
+        merged = []
+        for kind_, x in seq:
+            if kind_ == 'lit' and merged and merged[-1][0] == 'lit':
+                merged[-1] = ('lit', merged[-1][1] + x)
+            elif not (kind_ == 'lit' and x == ''):
+                merged.append((kind_, x))
+        if len(merged) >= 2 and merged[0][0] == 'val':
+            h = vt.strip(merged[0][1])
+            plain = isinstance(h, dict) and h.get('k') == 'atom' and h.get('root') == crate_p and not h.get('path')
+            dot = merged[1][0] == 'lit' and merged[1][1].startswith('.')
+            return ('plain' if plain and dot else 'modified'), vt.show(outs[0])
+        return 'unknown', vt.show(outs[0])
     for v in sl['variants']:
         kind, txt = stem_of(v['name'])
         rep.check(kind != 'unknown', 'M1', f"file-name:{v['name']}", txt[:60], f"output_file_name: the file name for {v['name']} could not be determined (`{txt[:80]}`)", {'file': ofn['file'], 'line': ofn['line']})
